@@ -21,7 +21,12 @@ META = {
              "a FileAccessor(flat, gzip, compresslevel); names from a "
              "prefix-free pool with one fixed MIME type each; non-trivial = "
              "history with an overwrite of an existing entry and a cross-"
-             "configuration read; distinct by the history."),
+             "configuration read; distinct by the history."
+             ' Also: the writing accessor obtained through get_accessor_fo'
+             'r_url and re-opened mid-history, sharded directories address'
+             'ed through every URL spelling, contents that look like gzip '
+             '/ zlib containers, absolute names inside sibling directories'
+             " whose names extend the dataset's."),
     "trusted_base": ["dict model", "Python gzip module", "os.walk snapshots"],
     "assumptions": ["one MIME type per name for the whole history (as every "
                     "caller does)", "names never end in .gz"],
